@@ -618,53 +618,59 @@ func ruleCacheAgree(c *RC) *RuleResult {
 		return r
 	}
 	for _, ini := range inis {
-		info := ini.Pkg.TypesInfo
 		replayed := map[string]bool{}
-		ast.Inspect(ini.Decl.Body, func(n ast.Node) bool {
-			rs, ok := n.(*ast.RangeStmt)
-			if !ok {
-				return true
-			}
-			sel, ok := ast.Unparen(rs.X).(*ast.SelectorExpr)
-			if !ok {
-				return true
-			}
-			s := info.Selections[sel]
-			if s == nil || c.Prog.FieldOwner[s.Obj().(*types.Var).Origin()] != "inbox" {
-				return true
-			}
-			v, _ := rs.Value.(*ast.Ident)
-			if v == nil {
-				return true
-			}
-			// the replay loop may only be guarded by the nil test of the lookup result
-			for _, enc := range enclosingConds(ini, rs) {
-				ifs, ok := enc.(*ast.IfStmt)
-				simple := false
-				if ok {
-					if be, ok := ast.Unparen(ifs.Cond).(*ast.BinaryExpr); ok && be.Op.String() == "!=" {
-						if id, ok := be.Y.(*ast.Ident); ok && id.Name == "nil" {
-							simple = true
-						}
-					}
-				}
-				if !simple {
+		// the initialiser and its single-caller helpers; a helper counts only if the chain of calls leading to it is
+		// unconditional (a replay helper invoked under a view test replays only sometimes)
+		members := c.unconditionalCluster(ini)
+		for _, mem := range members {
+			mem := mem
+			info := mem.Pkg.TypesInfo
+			ast.Inspect(mem.Decl.Body, func(n ast.Node) bool {
+				rs, ok := n.(*ast.RangeStmt)
+				if !ok {
 					return true
 				}
-			}
-			ast.Inspect(rs.Body, func(m ast.Node) bool {
-				if call, ok := m.(*ast.CallExpr); ok && len(call.Args) == 1 {
-					if a, ok := call.Args[0].(*ast.Ident); ok && a.Name == v.Name {
-						w := &Walker{A: c.A, Fn: ini, info: info}
-						if t := w.staticCallee(call); t != nil && t == c.API["OnReceive"] {
-							replayed[sel.Sel.Name] = true
+				sel, ok := ast.Unparen(rs.X).(*ast.SelectorExpr)
+				if !ok {
+					return true
+				}
+				s := info.Selections[sel]
+				if s == nil || c.Prog.FieldOwner[s.Obj().(*types.Var).Origin()] != "inbox" {
+					return true
+				}
+				v, _ := rs.Value.(*ast.Ident)
+				if v == nil {
+					return true
+				}
+				// the replay loop may only be guarded by the nil test of the lookup result
+				for _, enc := range enclosingConds(mem, rs) {
+					ifs, ok := enc.(*ast.IfStmt)
+					simple := false
+					if ok {
+						if be, ok := ast.Unparen(ifs.Cond).(*ast.BinaryExpr); ok && be.Op.String() == "!=" {
+							if id, ok := be.Y.(*ast.Ident); ok && id.Name == "nil" {
+								simple = true
+							}
 						}
 					}
+					if !simple {
+						return true
+					}
 				}
+				ast.Inspect(rs.Body, func(m ast.Node) bool {
+					if call, ok := m.(*ast.CallExpr); ok && len(call.Args) == 1 {
+						if a, ok := call.Args[0].(*ast.Ident); ok && a.Name == v.Name {
+							w := &Walker{A: c.A, Fn: mem, info: info}
+							if t := w.staticCallee(call); t != nil && t == c.API["OnReceive"] {
+								replayed[sel.Sel.Name] = true
+							}
+						}
+					}
+					return true
+				})
 				return true
 			})
-			return true
-		})
+		}
 		for i := 0; i < inbox.NumFields(); i++ {
 			b := inbox.Field(i).Name()
 			r.Sites++
@@ -679,9 +685,11 @@ func ruleCacheAgree(c *RC) *RuleResult {
 		}
 		// lookup site: not under a view==0 guard, and the lookup deletes the key
 		var look []*Site
-		for _, s := range c.A.FnSites[ini] {
-			if s.Kind == "call" && s.Target != nil && s.Target.Recv == "cache" {
-				look = append(look, s)
+		for _, mem := range members {
+			for _, s := range c.A.FnSites[mem] {
+				if s.Kind == "call" && s.Target != nil && s.Target.Recv == "cache" {
+					look = append(look, s)
+				}
 			}
 		}
 		r.Sites++
@@ -690,11 +698,19 @@ func ruleCacheAgree(c *RC) *RuleResult {
 			continue
 		}
 		for _, s := range look {
-			good := len(enclosingConds(ini, s.Node)) == 0
-			for _, sn := range s.Snaps {
+			good := len(enclosingConds(s.Fn, s.Node)) == 0
+			early := false
+			for _, sn := range c.preciseSnapsAll(s) {
 				if len(sn.Args) != 1 || sn.Args[0].S != "ctx.BlockIndex" {
 					good = false
 				}
+				if sn.Killed["ctx.ViewNumber"] == 0 {
+					early = true // the height looked up is the one before the epoch write
+				}
+			}
+			if early {
+				r.fail(ini.Name+"/lookup-before-epoch", c.Prog.Pos(s.Node), "the cache is looked up before the epoch writer ran: on a height change the previous height's inbox is taken and the early payloads of the entered height are never replayed")
+				continue
 			}
 			deletes := false
 			ast.Inspect(s.Target.Decl.Body, func(n ast.Node) bool {
@@ -802,6 +818,29 @@ func enclosingConds(fn *FuncInfo, target ast.Node) []ast.Node {
 		stack = append(stack, n)
 		return true
 	})
+	return out
+}
+
+// unconditionalCluster: root and those of its single-caller helpers that are reached through unconditional calls only.
+func (c *RC) unconditionalCluster(root *FuncInfo) []*FuncInfo {
+	cl := c.A.cluster(root)
+	out := []*FuncInfo{root}
+	okd := map[*FuncInfo]bool{root: true}
+	for changed := true; changed; {
+		changed = false
+		for _, f := range c.Prog.sortedFuncs() {
+			if !cl[f] || okd[f] {
+				continue
+			}
+			for _, cs := range c.A.callers[f] {
+				if okd[cs.Fn] && len(enclosingConds(cs.Fn, cs.Node)) == 0 {
+					okd[f] = true
+					out = append(out, f)
+					changed = true
+				}
+			}
+		}
+	}
 	return out
 }
 
